@@ -47,7 +47,7 @@ func byteSweep(r *evid.Run) {
 // code units of the surrogate ranges as \u escapes in both cases, neighbours outside the ranges, raw
 // multi-byte characters, raw surrogate bytes, plain escapes), as a value and as an object name.
 func escapeAtoms(r *evid.Run) {
-	atoms := enum.Syms(`\ud800`, `\udbff`, `\udc00`, `\udfff`, `\uD83D`, `\uDE00`, `\ud7ff`, `\ue000`, `\u0041`, `\uffff`, `\u0000`, `a`, `\n`, `\\`, "é", "\xed\xa0\x80", "\xed\xb0\x80", `\u`, `\ud8`)
+	atoms := views.EscapeAtoms
 	maxLen := 3
 	if r.Tier == "thorough" {
 		maxLen = 4
